@@ -75,6 +75,10 @@ def gen(st, index, job):
     if 'acquire' not in enabled:
         enabled.append('acquire')
     ops = [[enabled[ro.randrange(len(enabled))]] + [ro.randrange(1 << 16) for _ in range(5)] for _ in range(nops)]
+    # stratified: the run index walks through the operation kinds, so every kind
+    # is the first edit of a fresh tree equally often (on a freshly acquired handle)
+    ops[0][0] = OPS[index % len(OPS)]
+    ops[0][1] |= 1
     return {'doc': doc, 'ops': ops}
 
 
